@@ -70,63 +70,56 @@ func c10dump(m map[string]string) string {
 	return b.String()
 }
 
-// c10reference is the left fold of the statement.
+// c10reference is the left fold of the statement: the entries are processed top to bottom, each name and value
+// expanded with the caller's environment plus all earlier entries, the expanded value written back (unless runtime
+// precedence keeps the caller's); the block is then the same entries under their expanded names, in order.
+// collision = two entries end up under the same name (then the statement does not say which survives where).
 func c10reference(c c10case) (r c10result, collision bool) {
 	env := &c10env{m: map[string]string{}, insensitive: c.Insensitive}
 	for k, v := range c.Caller {
 		env.Set(k, v)
 	}
-	model := &c05model{} // list of pairs with Replace semantics; values kept aside
-	vals := map[int]string{}
+	// the input block as the ordered map holds it: a repeated name keeps its first position, last value
+	var names []string
+	vals := map[string]string{}
 	for _, kv := range c.Block {
-		if i := model.find(kv[0]); i >= 0 {
-			vals[model.ents[i].id] = kv[1]
-		} else {
-			model.set(kv[0], 0)
-			vals[model.ents[model.find(kv[0])].id] = kv[1]
+		if _, ok := vals[kv[0]]; !ok {
+			names = append(names, kv[0])
 		}
+		vals[kv[0]] = kv[1]
 	}
-	ids := make([]int, len(model.ents))
-	for i, e := range model.ents {
-		ids[i] = e.id
-	}
-	seenNames := map[string]bool{}
-	for _, id := range ids {
-		idx := -1
-		for i, e := range model.ents {
-			if e.id == id {
-				idx = i
-			}
-		}
-		if idx < 0 {
-			continue // removed by an earlier rename onto its name
-		}
-		k := model.ents[idx].k
+	seenFinal := map[string]bool{}
+	type out struct{ k, v string }
+	var outs []out
+	for _, k := range names {
 		intk, err := interpolate.Interpolate(env, k)
 		if err != nil {
 			r.Err = err.Error()
 			break
 		}
-		intv, err := interpolate.Interpolate(env, vals[id])
+		intv, err := interpolate.Interpolate(env, vals[k])
 		if err != nil {
 			r.Err = err.Error()
 			break
 		}
-		if seenNames[env.norm(intk)] {
+		if seenFinal[intk] {
 			collision = true
 		}
-		seenNames[env.norm(intk)] = true
-		if k != intk && model.find(intk) >= 0 {
-			collision = true
-		}
-		model.replace(k, intk, 0)
-		vals[id] = intv
+		seenFinal[intk] = true
+		outs = append(outs, out{intk, intv})
 		if _, exists := env.Get(intk); !(c.Prefer && exists) {
 			env.Set(intk, intv)
 		}
 	}
-	for _, e := range model.ents {
-		r.Block = append(r.Block, [2]string{e.k, vals[e.id]})
+	if r.Err != "" {
+		// the block is left as it was
+		for _, k := range names {
+			r.Block = append(r.Block, [2]string{k, vals[k]})
+		}
+	} else {
+		for _, o := range outs {
+			r.Block = append(r.Block, [2]string{o.k, o.v})
+		}
 	}
 	if r.Err == "" {
 		r.Probe, _ = interpolate.Interpolate(env, c10probe)
@@ -216,25 +209,13 @@ func c10judge(c c10case) (kind, detail string, collision bool) {
 	if pan != "" {
 		return "panic", pan, collision
 	}
-	if collision && c.Prefer {
-		return "", "", collision // executed (no panic), not compared: "already present" is ambiguous here
+	if collision {
+		// two entries end up under one name: executed (no panic), not compared — the statement does not say which
+		// entry survives at which position, and under runtime precedence "already present" is ambiguous
+		return "", "", collision
 	}
 	if c.Impl == "nil" {
 		got.EnvDump, want.EnvDump = "", "" // the internal default env is not observable
-	}
-	if c.Impl == "lib" {
-		// the reference dump may contain names never probed; restrict both to probed names (done in c10real) by recomputing want on the same name set
-		wm := map[string]string{}
-		env := &c10env{m: map[string]string{}, insensitive: c.Insensitive}
-		for _, part := range strings.Split(want.EnvDump, ";") {
-			if i := strings.Index(part, "="); i >= 0 {
-				env.m[part[:i]] = part[i+1:]
-			}
-		}
-		for k, v := range env.m {
-			wm[k] = v
-		}
-		want.EnvDump = c10dump(wm)
 	}
 	if want.Err != "" || got.Err != "" {
 		if (want.Err == "") != (got.Err == "") {
@@ -265,11 +246,11 @@ func c10run(w *report.W) {
 	}
 	alphas := []alpha{
 		{1, []string{"A", "B", "a", "$N", "${A}x", "$$A"}, []string{"lit", "$A", "${B}", "$$A", "${A:-d}", "$UNSET", "$RT", "\\$A", "${A?}", "$a", "p$A$B", ""}},
-		{2, []string{"A", "B", "a", "$N"}, []string{"lit", "$A", "${B}", "$$A", "${A:-d}", "$UNSET", "$RT", "$a"}},
-		{3, []string{"A", "B", "a", "$N"}, []string{"lit", "$A", "${B}", "$$A", "${A:-d}", "$RT"}},
+		{2, []string{"A", "B", "a", "$N", "$$A", "$A", "\\$B"}, []string{"lit", "$A", "${B}", "$$A", "${A:-d}", "$UNSET", "$RT", "$a"}},
+		{3, []string{"A", "B", "a", "$N", "$$A", "$A"}, []string{"lit", "$A", "${B}", "$$A", "$RT"}},
 	}
 	if w.Thorough() {
-		alphas[2] = alpha{3, []string{"A", "B", "a", "$N"}, []string{"lit", "$A", "${B}", "$$A", "${A:-d}", "$UNSET", "$RT", "$a"}}
+		alphas[2] = alpha{3, []string{"A", "B", "a", "$N", "$$A", "$A"}, []string{"lit", "$A", "${B}", "$$A", "${A:-d}", "$UNSET", "$RT", "$a"}}
 		alphas = append(alphas, alpha{4, []string{"A", "B", "$N"}, []string{"lit", "$A", "${B}", "$$A", "$RT"}})
 		alphas = append(alphas, alpha{6, []string{"A"}, []string{"l", "$A"}}, alpha{5, []string{"A", "B"}, []string{"$A", "${B}x"}})
 	}
